@@ -85,7 +85,7 @@ TABLE = {
     "mesh": ("MESH", "--mesh", "value"), "mp_shift": ("MP_SHIFT", None, "value"), "gc": ("GAMMA_CENTER", "--gc", "true"), "nomeshsym": ("MESH_SYMMETRY", "--nomeshsym", "false"),
     "eigvecs": ("EIGENVECTORS", "--eigvecs", "true"), "gv": ("GROUP_VELOCITY", "--gv", "true"), "nowritemesh": ("WRITE_MESH", "--nowritemesh", "false"),
     "band": ("BAND", "--band", "value"), "band_points": ("BAND_POINTS", "--band-points", "value"), "band_connection": ("BAND_CONNECTION", "--band-connection", "true"),
-    "band_const_interval": ("BAND_CONST_INTERVAL", "--band-const-interval", "true"),
+    "band_const_interval": ("BAND_CONST_INTERVAL", "--band-const-interval", "true"), "band_labels": ("BAND_LABELS", "--band-labels", "value"),
     "qpoints": ("QPOINTS", "--qpoints", "value"), "writedm": ("WRITEDM", "--writedm", "true"),
     "dos": ("DOS", "--dos", "true"), "sigma": ("SIGMA", "--sigma", "value"), "fmin": ("FMIN", "--fmin", "value"), "fmax": ("FMAX", "--fmax", "value"), "fpitch": ("FPITCH", "--fpitch", "value"),
     "pdos": ("PDOS", "--pdos", "value"), "xyz_projection": ("XYZ_PROJECTION", "--xyz-projection", "true"),
@@ -170,8 +170,13 @@ def gen_post_step(rng, w, has_born, prev_wrote_fc, force_cmd=None):
         if path[0][0] < 0:
             path.reverse()
         s["band"] = "  ".join(_fmt(p) for p in path)
+        if mode == "band" and rng.random() < 0.35:
+            # two sections separated by a comma (a break in the path) and one label per section end
+            path2 = rng.sample(pts, 2)
+            s["band"] = s["band"] + ",  " + "  ".join(_fmt(p) for p in path2)
+            s["band_labels"] = " ".join("P%d" % i_ for i_ in range(len(path) + 2))
         s["band_points"] = rng.choice([3, 5, 11])
-        if len(path) > 2 and rng.random() < 0.4:
+        if len(path) > 2 and "band_labels" not in s and rng.random() < 0.4:
             s["band_const_interval"] = True  # segments sampled with similar spacing: needs the reciprocal lattice
             s["band_points"] = rng.choice([11, 17])
         if rng.random() < 0.3:
@@ -456,6 +461,24 @@ def child_reference(args):
     elif mode in ("band", "band_mesh"):
         from phonopy.phonon.band_structure import get_band_qpoints
 
+        if "," in s["band"]:
+            from phonopy.phonon.band_structure import get_band_qpoints_and_path_connections
+
+            sections = [np.array([float(x) for x in sec.split()]).reshape(-1, 3) for sec in s["band"].split(",")]
+            bands, conns = get_band_qpoints_and_path_connections(sections, npoints=int(s.get("band_points", 51)))
+            ph.run_band_structure(bands, with_eigenvectors=bool(s.get("eigvecs")), with_group_velocities=bool(s.get("gv")), is_band_connection=bool(s.get("band_connection")),
+                                  path_connections=conns, labels=(s["band_labels"].split() if "band_labels" in s else None))
+            d = ph.get_band_structure_dict()
+            out.update(q=np.concatenate(d["qpoints"]), freq=np.concatenate(d["frequencies"]),
+                       gv=None if d.get("group_velocities") is None else np.concatenate(d["group_velocities"]))
+            ph.write_yaml_band_structure(filename="reference_band.yaml")
+            yref = _yaml("reference_band.yaml")
+            os.remove("reference_band.yaml")
+            out["band_labels"] = yref.get("labels")
+            out["segment_nqpoint"] = yref.get("segment_nqpoint")
+            probes_ = None
+            out["D"] = np.array([ph.get_dynamical_matrix_at_q(q) for q in [[0.13, 0.27, -0.31], [0.5, 0, 0]]])
+            return out
         pts = np.array([float(x) for x in s["band"].split()]).reshape(-1, 3)
         if s.get("band_const_interval"):
             bands = get_band_qpoints([pts], npoints=int(s.get("band_points", 51)), rec_lattice=np.linalg.inv(ph.primitive.cell))
@@ -569,6 +592,9 @@ def parse_outputs(path, step):
             out["freq"] = np.array([[b["frequency"] for b in p["band"]] for p in y["phonon"]])
             out["gv"] = np.array([[b["group_velocity"] for b in p["band"]] for p in y["phonon"]]) if "group_velocity" in y["phonon"][0]["band"][0] else None
             out["_dec"] = simfs.printed_decimals(open(j("band.yaml")).read())
+            if "," in s.get("band", ""):
+                out["band_labels"] = y.get("labels")
+                out["segment_nqpoint"] = y.get("segment_nqpoint")
     elif mode == "qpoints":
         if s.get("qpoints_format") == "hdf5" or s.get("hdf5"):
             with h5py.File(j("qpoints.hdf5"), "r") as f:
@@ -935,6 +961,11 @@ def execute(spec):
             if mode == "tdisp":
                 cmp_num("temperature", got["T"], ref["T"], dget("temperature", 7), bad)
                 cmp_num("thermal_displacements", got["tdisp"], np.asarray(ref["tdisp"]).reshape(np.asarray(got["tdisp"]).shape) if np.asarray(ref["tdisp"]).size == np.asarray(got["tdisp"]).size else ref["tdisp"], dget("displacements", 7), bad)
+            if mode == "band" and "segment_nqpoint" in ref and "segment_nqpoint" in got:  # (band.yaml; the hdf5 layout has no such block)
+                if got.get("band_labels") != ref.get("band_labels"):
+                    bad.append(("band_labels", "band.yaml has %r, the library writes %r" % (got.get("band_labels"), ref.get("band_labels"))))
+                if got.get("segment_nqpoint") != ref.get("segment_nqpoint"):
+                    bad.append(("segment_nqpoint", "band.yaml has %r, the library writes %r" % (got.get("segment_nqpoint"), ref.get("segment_nqpoint"))))
             if mode == "band_mesh":
                 cmp_num("mesh:q-position", got.get("mesh_q"), ref.get("mesh_q"), 7, bad)
                 cmp_freq("mesh:frequency", got.get("mesh_freq"), ref.get("mesh_freq"), 10, bad)
